@@ -2,7 +2,7 @@
 """tools/seedmatrix.py [ids...] : run the property's quick check (then thorough if quick misses) against every
 seeded change under /verif/seeded, in a scratch worktree of /repo, and record the verdict in meta.json."""
 import json, os, subprocess, sys, glob, re
-WT = "/tmp/lead-wt"
+WT = f"/tmp/seedmx-{os.getpid()}"  # one scratch worktree per invocation (several agents may run this at once)
 env = dict(os.environ, GOFLAGS="-mod=mod", GOPROXY="off", GOSUMDB="off", GOTOOLCHAIN="local")
 def sh(cmd, **kw):
     return subprocess.run(cmd, shell=True, capture_output=True, text=True, env=env, **kw)
